@@ -71,6 +71,8 @@ type upload struct {
 	// diverged: an already recorded violation left the gateway's view of this upload different from the
 	// model in an unknown way; it is no longer judged exactly (no cascades)
 	diverged bool
+	// noPart1: the parts of this upload are numbered from 2 on (numbers need not start at 1 nor be consecutive)
+	noPart1 bool
 }
 
 func (u *upload) numbers() []int {
